@@ -183,19 +183,18 @@ theorem C05_from_cfg (cfg : Cfg) (fresh : String) (n : Name) (as : List Attr)
   · refine ⟨fromAttr cfg, ?_, rfl, hfrom, fun _ => rfl⟩
     simp [hfound, hfrom]
 
-/-- regenerated: the only assignment to the encoder's `from` field is `se.from = s.LocalAddr()`
-in `negotiateSession`, and `LocalAddr()` returns the `to` of the input stream info -/
-theorem C05_gen_encoder_from :
-    Generated.C05.encoderFrom = some [("negotiateSession", "s.LocalAddr()")] ∧
-    Generated.C05.localAddrReturns = some "s.in.Info.To" := by decide
-
-/-- the source of the encoder's address as the repository has it -/
+/-- the source of the encoder's address as the repository has it: the one assignment to the
+`from` field of a stanzaEncoder (regenerated: function and assigned expression) -/
 def genFromSource : FromSource :=
   match Generated.C05.encoderFrom with
   | some [(_, e)] => FromSource.ofExpr e
   | _ => .other
 
-theorem C05_gen_from_source : genFromSource = .localAddr := by decide
+/-- regenerated: there is exactly one assignment to the encoder's `from` field, what it assigns is
+the session's local address (`s.LocalAddr()` or the field that method returns), and
+`LocalAddr()` returns the `to` of the input stream info -/
+theorem C05_gen_from_source :
+    genFromSource = .localAddr ∧ Generated.C05.localAddrReturns = some "s.in.Info.To" := by decide
 
 /-- **server-to-server streams**: whatever addresses the session holds (told beforehand or
 learnt from the peer's stream header, initiated or received), when it reports a non-empty
@@ -205,7 +204,7 @@ theorem C05_from_s2s (a : Addrs) (fresh : String) (n : Name) (as : List Attr)
     (hs : isStanzaEmptySpace n = true) (hl : a.localAddr ≠ "") :
     ∃ x ∈ startAttrs (encStart (sessionCfg genFromSource nsServer a) fresh 1 n as),
       x.name.loc = "from" ∧ x.value ≠ "" ∧ (found as "from" = false → x.value = a.localAddr) := by
-  rw [C05_gen_from_source]
+  rw [C05_gen_from_source.1]
   have hc : sessionCfg .localAddr nsServer a = ⟨nsServer, a.localAddr⟩ := by
     simp [sessionCfg, FromSource.pick, Addrs.localAddr]
   rw [hc]
